@@ -26,7 +26,7 @@ REAL = ['circuits.core.manager.Manager (fire/_fire/flush/tick/_dispatcher/_Event
         'circuits.core.handlers.handler', 'circuits.core.events.Event']
 STUBBED = ['handler tie-break order and task order (decided by the tape through Manager.getHandlers / _tasks seams)']
 ASSUMPTIONS = ['all components use channel "*"; handlers may override their channel (a/b) and events may be fired on explicit channels, also two at once: for those only the order and stop() clauses are judged (matching is C01\'s subject)', 'handlers are not generators; a handler may raise (after firing/stopping): the order and stop() clauses hold regardless']
-PROBES = ['fired-in-handler', 'nested-flush', 'nested-flush-new-pass', 'stop', 'mixed-priority-pass', 'tie-priority-handlers', 'fault:handler-raise', 'stop-then-raise', 'multi-channel-event', 'stop-then-refire-same-object', 'large-run', 'burst>256', 'handler-without-event-parameter', 'stop-by-handler-without-event-parameter']
+PROBES = ['assembled-elsewhere', 'fired-in-handler', 'nested-flush', 'nested-flush-new-pass', 'stop', 'mixed-priority-pass', 'tie-priority-handlers', 'fault:handler-raise', 'stop-then-raise', 'multi-channel-event', 'stop-then-refire-same-object', 'large-run', 'burst>256', 'handler-without-event-parameter', 'stop-by-handler-without-event-parameter']
 TIERS = {
     'quick': dict(runs=60000, wall=35, chunk=250, cfg=dict(max_events=40, max_ops=12)),
     'thorough': dict(runs=600000, wall=600, chunk=500, cfg=dict(max_events=120, max_ops=30)),
@@ -297,9 +297,29 @@ def run_one(ctx):
             ns[f.__name__] = f
         comps.append(type('C%d' % ci, (BaseComponent,), ns)())
     root = comps[0]
+    moved = ch.chance(1, 5, 'assembled-elsewhere')
+    if moved:
+        # the tree under test is put together while it is part of ANOTHER tree and detached as a whole before the experiment: an empty top
+        # component joins a host, the generated components are registered below it there, then the top is unregistered and runs as its own
+        # root.  Whatever the dispatcher keeps per root (caches, flags about the handlers in the tree) must describe the detached tree.
+        ctx.stat('assembled-elsewhere')
+        host = BaseComponent()
+        root = BaseComponent()
+        root.register(host)
+        while len(host):
+            host.flush()
+        comps[0].register(root)
     for i, c in enumerate(comps[1:], 1):
         c.register(comps[ch.draw(i, 'parent')])
     Obs().register(root)
+    if moved:
+        while len(host):
+            host.flush()
+        root.unregister()
+        for _ in range(6):
+            host.flush()
+        if root.parent is not root:
+            raise HarnessLimit('the assembled tree did not detach from its host')
     while len(root):          # drain the `registered` events before the experiment
         root.flush()
 
